@@ -9,7 +9,8 @@ import VarmqVerif.Spec.Props2
                      else goListenToContext (one listener per run, if a context is configured); status = running
     pause()          running → paused ; paused, stopped → nil ; initiated → ErrNotRunningWorker
     stop()           stopped → nil ; running, paused → … status = stopped ; cancel() of the run's context ; initiated → ErrNotRunningWorker
-    Restart()        (any status) … cancel() the previous run's context, derive a new one, status = initiated, startRun
+    Restart()        (any status) … cancel() the previous run's context, derive a new one, run() (the status stays
+                     paused/stopped until run() stores running)
     Resume()         stopped → ErrNotRunningWorker ; initiated → startRun ; running → ErrRunningWorker ; paused → running
     TunePool(n)      not running → ErrNotRunningWorker ; same value → ErrSameConcurrency ; else store
     listener of run k   <-ctx_k.Done() ; lock ; if w.ctx is still ctx_k { stop() }
@@ -37,9 +38,12 @@ inductive Ev where
   | fire (k : Nat)
   deriving Repr, DecidableEq
 
+/-- run(): start the goroutines of a run (one context listener if a context is configured), status = running -/
+@[simp, reducible] def runNew (s : State) : State × Err :=
+  ({ s with ws := .running, listeners := if s.hasCtx then s.run :: s.listeners else s.listeners }, .none)
+
 def startRun (s : State) : State × Err :=
-  if s.ws != .initiated then (s, .runningWorker)
-  else ({ s with ws := .running, listeners := if s.hasCtx then s.run :: s.listeners else s.listeners }, .none)
+  if s.ws != .initiated then (s, .runningWorker) else runNew s
 
 def pause (s : State) : State × Err :=
   match s.ws with
@@ -55,7 +59,7 @@ def stop (s : State) : State × Err :=
 
 def restart (s : State) : State × Err :=
   let s1 := if s.hasCtx then { s with run := s.run + 1, runCancelled := false } else s
-  startRun { s1 with ws := .initiated }
+  runNew s1
 
 def resume (s : State) : State × Err :=
   match s.ws with
